@@ -1,11 +1,24 @@
 // C13 -- axis-aligned boxes behave as half-open point sets (shared template code).
 //
-// Engine E.  Every box whose corners lie in an explicit integer range is built as a real
+// Engine E.  Every box whose corners lie on an explicit finite lattice is built as a real
 // fcppt::math::box::object<T,N>; the reference is the *explicit point set*
-//   { x in lattice^N : pos_i <= x_i < max_i for all i }
-// stored as a bit mask over a lattice that is one step wider than the corner range, so that two
+//   { x in probe points : pos_i <= x_i < max_i for all i }
+// stored as a bit mask over probe points that reach one step beyond the corner range, so that two
 // boxes of the domain denote the same set iff their masks are equal.  Results of fcppt
 // functions are read back corner by corner, looked up in the same table and compared as sets.
+//
+// The lattice is a set of integer indices; a coordinate policy maps an index to a value of T strictly
+// monotonically, so the model is evaluated exactly for every T:
+//   coord_int  built-in integers and the heap-backed heap_int (C13_heapint.hpp): index = value
+//   coord_dec  float/double: corner c is the non-dyadic value c/10; both floating-point neighbours of
+//              every corner value are additional probe points
+//   coord_ext  float/double: +-infinity, +-max, denormals, ... (comparison/selection functions only)
+// Functions that only compare and select (contains_point, intersects, intersection, contains,
+// extend_bounding_box, the (min,max) constructor, init_max, getters) must return lattice values
+// exactly for every T.  Functions whose documented result involves arithmetic (size, box(pos,size),
+// init_dim, corner_points, center, shrink, stretch_absolute, distance, operator<) are compared with
+// exact integers for integer-like T and with the documented formula evaluated in T for floating point.
+// Every entry point is called with lvalue arguments and again with temporaries.
 #ifndef VERIF_C13_IMPL_HPP
 #define VERIF_C13_IMPL_HPP
 
@@ -387,9 +400,26 @@ template <class T, sz N, class C = typename default_coord<T>::type> struct dom
     return r + ")";
   }
   static std::string raw(box const &b) { return "[" + raw(b.pos()) + ";" + raw(b.max()) + ")"; }
+  using corner_array = decltype(fcppt::math::box::corner_points(std::declval<box const &>()));
   static bool same(bool a, bool b) { return a == b; }
-  static bool same(vec const &a, vec const &b) { return a == b; }
-  static bool same(box const &a, box const &b) { return a.pos() == b.pos() && a.max() == b.max(); }
+  static bool same(vec const &a, vec const &b)
+  {
+    for (sz i = 0; i < N; ++i)
+    {
+      T const &x = a.get_unsafe(i), &y = b.get_unsafe(i);
+      if (!(x == y || (x != x && y != y))) // equal, or both NaN
+        return false;
+    }
+    return true;
+  }
+  static bool same(box const &a, box const &b) { return same(a.pos(), b.pos()) && same(a.max(), b.max()); }
+  static bool same(corner_array const &a, corner_array const &b)
+  {
+    for (std::size_t k = 0; k < a.size(); ++k)
+      if (!same(a.get_unsafe(k), b.get_unsafe(k)))
+        return false;
+    return true;
+  }
   // call f with the arguments as lvalues and again with temporaries (rvalues); the results must agree
   template <class F, class... A> static auto both(F f, std::string const &s, A const &...a)
   {
@@ -862,7 +892,7 @@ template <class T, sz N, class C = typename default_coord<T>::type> struct dom
         if (vrt::begin_text(n_corner, d))
         {
           vrt::nontrivial(nonempty[a] != 0);
-          auto const cp = fcppt::math::box::corner_points(A);
+          auto const cp = both(C13_FWD(fcppt::math::box::corner_points), s_corner, A);
           std::size_t const n = std::size_t(1) << N;
           VRT_CHECK(cp.size() == n, s_corner + ":count", "%zu corners", std::size_t(cp.size()));
           if constexpr (C::exact)
@@ -905,7 +935,7 @@ template <class T, sz N, class C = typename default_coord<T>::type> struct dom
         if (!inverted[a] && vrt::begin_text(n_center, d))
         {
           vrt::nontrivial(nonempty[a] != 0);
-          vec const cv = fcppt::math::box::center(A);
+          vec const cv = both(C13_FWD(fcppt::math::box::center), s_center, A);
           if constexpr (C::exact)
           {
             pt<N> const c = rdv(cv);
